@@ -13,7 +13,7 @@ from rdflib import BNode, Literal, URIRef
 
 from .. import enc, framework as F, shapes as S, evalcheck as EC, leaves as LV
 from ..enc import EX, SH
-from rdflib.namespace import RDFS
+from rdflib.namespace import RDFS, XSD
 from . import c02, c05, c15
 
 c02_classes = S.CLASSES + [EX.C3, EX.C4]
@@ -29,6 +29,15 @@ def run_worker(case_path, out_path, hashseed):
     if r.returncode != 0:
         return ("worker-failed", r.stderr.decode()[-400:])
     return pickle.load(open(out_path, "rb"))
+
+
+def well_kept(x):
+    """rdflib keeps "maybe"^^xsd:boolean as a Literal that prints, compares and hashes as "false"^^xsd:boolean and differs from it only by
+    a hidden ill-typed flag (which a pickle drops): a graph that is given both keeps whichever came first.  That is rdflib's conflation of
+    two RDF terms, not an order dependence of the validator - such literals are replaced by an ill-typed literal rdflib keeps apart"""
+    if isinstance(x, Literal) and x.datatype == XSD.boolean and x.ill_typed:
+        return Literal("abc", datatype=XSD.integer)
+    return x
 
 
 def variant(rng, data, shapes, k):
@@ -164,7 +173,7 @@ def main(tier, seed, replay=None):
                 api, fam = rng.choice(["rules", "validate-advanced"]), "rules (distinct sh:order)"
                 if api == "validate-advanced":
                     opts, api = dict(opts, advanced=True), "validate"
-            data, shapes = list(c["data"]), list(c["sg"])
+            data, shapes = [tuple(well_kept(x) for x in t) for t in c["data"]], [tuple(well_kept(x) for x in t) for t in c["sg"]]
             cases.append({"family": fam, "shapes_ttl": c["sg"].serialize(format="nt"), "data_nt": c["data"].serialize(format="nt"), "options": opts, "api": api})
             for k in range(nvar + 1):
                 if k == 0:
